@@ -36,7 +36,7 @@ PROPS = {
         "kani": [K_SOCKRECV, K_SEGORD],
         "level": "proof",
         "technique": "Verus contract on the buffer arithmetic of the extracted Socket::recv (loop closed by an inductive invariant) over a ghost queue of pending messages; concrete witnesses replayed on the real async function",
-        "level_text": "READ-SIDE SENTENCE ONLY ('a read that asks for at most n bytes never returns more than n, and successive reads never lose, duplicate or reorder bytes'): Socket::recv is verified, for every request size, every stored remainder and every queue of pending messages (unbounded number and sizes, arbitrary chunk layouts), to return at most `bytes` bytes and to satisfy  returned ++ pending_after == pending_before, where pending = stored remainder ++ concatenation of the queued messages in delivery order. By induction over calls the concatenation of successive reads is a prefix of what the socket was handed, in order, with nothing lost or duplicated; Socket::recv_msg is verified against the same ghost stream (it takes exactly the stored remainder, else the head message). Hand-over side: SocketSession::receive appends an accepted message at the end of what the socket will be handed (the channel when the socket exists, else the parked queue), and SocketSession::receive_stored_messages - the replay done by accept() - moves the parked messages into the channel in arrival order, each once. Of the first sentence of C02 (what the peer's socket is handed equals what was written) the per-call TCP pieces are included from the TCB unit (the clauses tagged C02: send() appends in order, segments() tiles the submitted text into consecutively numbered segments, the retransmission queue keeps every unacknowledged segment, the receive side appends exactly the text that continues the stream and hands the buffer out once, the reorder heap pops in circular sequence order); their composition across the network, Socket::send's task spawning, TcpSession's instruction queue and tokio schedules are NOT decided.",
+        "level_text": "READ-SIDE SENTENCE ('a read that asks for at most n bytes never returns more than n, and successive reads never lose, duplicate or reorder bytes'): Socket::recv is verified, for every request size, every stored remainder and every queue of pending messages (unbounded number and sizes, arbitrary chunk layouts), to return at most `bytes` bytes and to satisfy  returned ++ pending_after == pending_before, where pending = stored remainder ++ concatenation of the queued messages in delivery order. By induction over calls the concatenation of successive reads is a prefix of what the socket was handed, in order, with nothing lost or duplicated; Socket::recv_msg is verified against the same ghost stream (it takes exactly the stored remainder, else the head message). Hand-over side: SocketSession::receive appends an accepted message at the end of what the socket will be handed (the channel when the socket exists, else the parked queue), and SocketSession::receive_stored_messages - the replay done by accept() - moves the parked messages into the channel in arrival order, each once. Of the first sentence of C02 (what the peer's socket is handed equals what was written) the per-call TCP pieces are included from the TCB unit (the clauses tagged C02: send() appends in order, segments() tiles the submitted text into consecutively numbered segments, the retransmission queue keeps every unacknowledged segment, the receive side appends exactly the text that continues the stream and hands the buffer out once, the reorder heap pops in circular sequence order); their composition across the network, Socket::send's task spawning, TcpSession's instruction queue and tokio schedules are NOT decided.",
         "level_note": "Trusted: Verus/Z3; Message imported by contract (verified in unit message; Message::iter() 'yields exactly the view' is that unit's assumption). The extraction keeps the function body but applies declared rewrites that remove everything asynchronous: `async`, the session/listening check, yield_now, the shutdown subscription; `select!{shutdown, recv}` and `try_recv()` are routed to assumed-contract queue functions (a delivered message is the head of the ghost queue), Vec::extend(iter) to an assumed-contract append; struct Socket is reduced to the three fields recv uses. Hence concurrency (a message arriving or shutdown firing during the call) is modelled only as the nondeterministic outcome of those two functions. Termination of the receive loop is not verified. SocketSession's RwLocks are removed by declared rewrites (&self / Arc<Self> -> &mut self, lock guards -> plain borrows; tokio Sender -> assumed-contract VxSender log), so lock order and concurrent callers (a message arriving between `upstream = Some` and the replay) are not modelled; the failure path of the replay (channel refuses a message: the code drops it and accept() unwraps) carries no clause. Socket::accept itself, Socket::send (tokio::spawn per write), TcpSession ordering and datagram isolation are not under contract.",
         "assumptions": ["tokio mpsc delivers queued messages in FIFO order (assumed contract of vx_recv_blocking / vx_try_recv)", "Vec::extend appends exactly what the iterator yields", "cross-stack delivery (first sentence of C02) undecided"],
         "explanation": "bounded reads over the socket's pending byte stream",
